@@ -27,6 +27,10 @@ def cases(tier, seed):
                 c = {"comp": [P, M, N - P - M], "seqs": [util.spell(util.arrange(P, M, N - P - M, rnd), rnd)]}
                 if i % 7 == 0:
                     c["seqs"].append(util.spell(util.arrange(P, M, N - P - M, rnd), rnd))
+                if i % 5 == 0:
+                    # a realisation whose neutral residues are all of one kind (P, G, H, C, W ... in turn)
+                    one = "PGHCWYSNQTAVLIMF"[(i // 5) % 16]
+                    c["seqs"].append("".join(one if ch in ref.NEUTRAL else ch for ch in util.spell(util.arrange(P, M, N - P - M, rnd), rnd)))
                 yield c
 
 
